@@ -7,8 +7,8 @@ V = Path(__file__).resolve().parent.parent
 PY = "/venv/bin/python"
 
 CHECKS = {
-    "C01": ("kernel-checked table theorems (all 442 shipped per-definition decoders = Spec.compileDec of their database entries; the three dictionaries = the database's enumerations; regenerated from pgns.py and canboat.json on every run) + generic Lean theorems about running a compiled decoder for EVERY entry and payload (header, field metadata in order, each statically positioned field = the database-derived codec at the field's own offset, locality in the field's bits, not-available <-> no value, totality for integer-resolution numbers in range) + correspondence of the interpreter/codec models with all real decoders on database-derived boundary payloads + a database-only oracle over the same payloads",
-            "trusts the T1 translator (validated end-to-end), Spec.compile* as the reading of the database, hand models Codec/Interp tied by T3; non-ASCII/UTF-16 text decoding not modelled; totality for decimal resolutions rests on the oracle and correspondence, not on a theorem", "5 C01"),
+    "C01": ("kernel-checked table theorems (all 442 shipped per-definition decoders = Spec.compileDec of their database entries; the three dictionaries = the database's enumerations; regenerated from pgns.py and canboat.json on every run) + generic Lean theorems about running a compiled decoder for EVERY entry and payload (header, field metadata in order, each statically positioned field = the database-derived codec at the field's own offset, locality in the field's bits, not-available <-> no value, totality 'in range => decodes' for integer resolutions, for every decimal resolution without an Offset by an error analysis of the binary64 range test over Q with kernel-checked database side conditions, and for the one decimal field with an Offset by kernel evaluation of its whole raw domain) + correspondence of the interpreter/codec models with all real decoders on database-derived boundary payloads + a database-only oracle over the same payloads",
+            "trusts the T1 translator (validated end-to-end), Spec.compile* as the reading of the database, hand models Codec/Interp tied by T3; non-ASCII/UTF-16 text decoding not modelled; totality for the non-NUMBER kinds rests on the oracle and correspondence, not on a theorem", "5 C01"),
     "C02": ("kernel-checked table theorems (shipped encoders and decoders = compiled database) + Lean theorems: per-kind decode->encode round trips on the codec models (numbers up to 48 bits with integer or decimal resolution and Offset, not-available, lookups, reserved, dates, TIME/DURATION tick counts incl. signed), OR-accumulation read-back, and the message-level C02_roundtrip for the 260 well-formed encodable definitions (the 3 others are named by C02_db_coverage) + correspondence of all 418 encoders + a decode->encode oracle over every encodable definition (every raw value for fields up to 10 bits)",
             "trusts the T1 translator and Spec.compile*; hand models Codec/Interp tied by T3; fields wider than 48 bits rest on oracle + correspondence (one known finding at the end of a 64-bit range)", "5 C02"),
     "C09": ("Lean theorems on the encoder model: a NUMBER is encoded as the nearest tick inside the representable range, out-of-range and non-finite values are rejected, absent <-> absent, a missing field is an error, changing one field changes only its bits; exactness of LOOKUP/RESERVED/DATE/TIME raws only under an explicit `fits` hypothesis (partial) + table theorems + correspondence over the value classes of the quantifier + an encode->decode oracle",
